@@ -248,12 +248,12 @@ def write_replay(prop, name, v):
         rec["native_replay"] = bad["native"]
         reproduced = True
     else:
-        script = os.path.join(ROOT, "replay", name.split(".")[0] + "_" + ".".join(name.split(".")[1:3]) + ".py")
-        cands = [os.path.join(ROOT, "replay", safe + ".py"), script]
+        json.dump(rec, open(path, "w"), indent=1, default=str)       # the native replay reads the obligation from the file
+        cands = [os.path.join(ROOT, "replay", safe + ".py"), os.path.join(ROOT, "replay", "native.py")]
         for s in cands:
             if os.path.exists(s):
                 try:
-                    p = subprocess.run([VENV_PY, s, path], capture_output=True, text=True, timeout=600,
+                    p = subprocess.run([VENV_PY, s, path], capture_output=True, text=True, timeout=900, cwd="/var/tmp",
                                        env=dict(os.environ, PYTHONPATH=os.path.join(os.environ.get("VERIF_REPO", "/repo"), "src")))
                     rec["native_replay"] = {"script": os.path.relpath(s, ROOT), "exit": p.returncode,
                                             "stdout": p.stdout[-4000:], "stderr": p.stderr[-2000:]}
